@@ -18,6 +18,7 @@ open PdModel.Spec
 def evOf (bits : Nat) (i : Nat) (op : Op) (o : Out) : Option C01.Ev :=
   match op, o with
   | .getTS _ count, .ts ms l => some ⟨i, i, ms, l / 2 ^ bits - count, l / 2 ^ bits, l⟩
+  | .tryTS _ count, .ts ms l => some ⟨i, i, ms, l / 2 ^ bits - count, l / 2 ^ bits, l⟩
   | _, _ => none
 
 def events : Nat → St → List Op → List C01.Ev
@@ -44,11 +45,13 @@ theorem events_eq_grants (i : Nat) (s : St) (hsfx : s.cfg.suffix < 2 ^ s.cfg.bit
     simp only [run] at this
     rw [hcfg] at this
     rw [this]
-    rcases step_obs s op with ⟨m, count, p, l, rfl, hout, hgr, hcl, _, _⟩ | ⟨hnot, hgr⟩
+    rcases step_obs s op with ⟨m, count, p, l, hop, hout, hgr, hcl, _, _⟩ | ⟨hnot, hgr⟩
     · rw [hgr, hout]
-      simp only [evOf, undiff s.cfg hsfx l, Option.toList_some, List.map_cons, List.map_nil,
-        List.reverse_cons, List.append_assoc, List.singleton_append]
-      congr 1
+      rcases hop with rfl | rfl
+      all_goals
+        simp only [evOf, undiff s.cfg hsfx l, Option.toList_some, List.map_cons, List.map_nil,
+          List.reverse_cons, List.append_assoc, List.singleton_append]
+        congr 1
     · rw [hgr]
       have : evOf s.cfg.bits i op (step s op).2 = none := by
         unfold evOf
@@ -69,6 +72,7 @@ theorem events_index (i : Nat) (s : St) (ops : List Op) :
     · unfold evOf at he
       split at he
       · simp only [Option.toList_some, List.mem_singleton] at he; subst he; exact ⟨rfl, Nat.le_refl _⟩
+      · simp only [Option.toList_some, List.mem_singleton] at he; subst he; exact ⟨rfl, Nat.le_refl _⟩
       · simp at he
     · have := h2 e he; exact ⟨this.1, by omega⟩
 
@@ -85,6 +89,7 @@ theorem events_sorted (i : Nat) (s : St) (ops : List Op) :
       have hb' := events_index (i + 1) (step s op).1 ops b hb
       unfold evOf at ha
       split at ha
+      · simp only [Option.toList_some, List.mem_singleton] at ha; subst ha; simp only; omega
       · simp only [Option.toList_some, List.mem_singleton] at ha; subst ha; simp only; omega
       · simp at ha
 
